@@ -188,7 +188,7 @@ class Gen:
             if r.random() < 0.3:
                 e = ["f", r.choice(["escape", "e"]), e, []]
             return e, False
-        if self.i18n is not None and r.random() < 0.14:
+        if self.i18n is not None and r.random() < 0.18:
             return self.gen_gt(depth, allow_struct)
         choice = r.random()
         if choice < 0.50:
